@@ -58,6 +58,11 @@ func c04(tier string) int {
 	for _, op := range []string{"T", "S"} {
 		items = append(items, conc.Item{Name: "crash-conc", Params: "op=" + op + ",vs=S", MaxBound: b, MaxExecs: 2_000_000, Label: "C04/crash-conc-" + op + "-vs-set"})
 	}
+	// the engine fails inside the commit transaction (k-th record write): Commit reports it, nothing of the
+	// refused commit is visible or durable at any later crash point
+	for _, at := range []string{"1", "2", "3"} {
+		items = append(items, conc.Item{Name: "crash-kvfault", Params: "at=" + at, MaxBound: 0, Label: "C04/crash-kvfault-" + at})
+	}
 	cs := conc.RunItems(rp, pool, items, budget, verbose())
 	cov["concurrent_schedules_crashed"] = cs.Execs
 	cov["concurrent_completed_bound"] = cs.Completed
@@ -71,7 +76,7 @@ func c04(tier string) int {
 
 func c04Texts() (string, []string) {
 	return c04Rule(
-		"every workload of the stated depth (autocommit Set/Delete, Begin/Set/Delete/Commit/Rollback at RC and RR, GC; and the autocommit alphabet of C01 with SetReader and Create through the asynchronous pipeline; keys a,b; both background policies) runs once with every persistent mutation logged (file create, each write, remove, mkdir, KV single-key commit, KV multi-key commit); for EVERY prefix of the log, and for the torn variant of every file write, the state is materialised, a new process recovers and reads: the result must be the model after the acknowledged operations or after those plus the one in flight (whole operation), every listed key readable with one complete content; a second recovery must agree; with deep=1 the recovery itself is crashed at each of its mutation points; real-process tier (family sigkill): fixed workloads run in a child process on the real Badger engine and real files, killed by SIGKILL immediately before its n-th counted mutation for every n, recovered by the parent with the real engine; crash points of concurrent executions (scenario crash-conc): an overwrite (Set, or Create + two Writes + Close) / a delete / an RC transaction's commit of a key holding an acknowledged value against a concurrent collection pass — every schedule within 2 (quick) / 3 (thorough) deviations, and for each schedule every prefix of its mutation log materialised, recovered and read: the acknowledged value or the whole value in flight, and only the latter once acknowledged",
+		"every workload of the stated depth (autocommit Set/Delete, Begin/Set/Delete/Commit/Rollback at RC and RR, GC; and the autocommit alphabet of C01 with SetReader and Create through the asynchronous pipeline; keys a,b; both background policies) runs once with every persistent mutation logged (file create, each write, remove, mkdir, KV single-key commit, KV multi-key commit); for EVERY prefix of the log, and for the torn variant of every file write, the state is materialised, a new process recovers and reads: the result must be the model after the acknowledged operations or after those plus the one in flight (whole operation), every listed key readable with one complete content; a second recovery must agree; with deep=1 the recovery itself is crashed at each of its mutation points; real-process tier (family sigkill): fixed workloads run in a child process on the real Badger engine and real files, killed by SIGKILL immediately before its n-th counted mutation for every n, recovered by the parent with the real engine; crash points of concurrent executions (scenario crash-conc): an overwrite (Set, or Create + two Writes + Close) / a delete / an RC transaction's commit of a key holding an acknowledged value against a concurrent collection pass — every schedule within 2 (quick) / 3 (thorough) deviations, and for each schedule every prefix of its mutation log materialised, recovered and read: the acknowledged value or the whole value in flight, and only the latter once acknowledged; engine failures inside the commit transaction (scenario crash-kvfault: the k-th record write of a two-key commit fails, k = 1..3): Commit must return an error and the committed state stay what it was, live and after a crash at every later point",
 		[]string{"process kill, not power loss: every completed file-system call and KV commit is durable, a KV transaction is atomic (Badger's own crash safety is trusted); torn file writes are modelled by a half-written chunk",
 			"in-memory Badger engine with full version history (an image takes the volume as of any past commit); bound to the real engine and real SIGKILL by the conformance tier (DESIGN.md §2.9)"})
 }
